@@ -110,6 +110,9 @@ func NewProtocol[G algebra.PrimeGroupElement[G, S], S algebra.PrimeFieldElement[
 		if s == nil {
 			return *new(G), proofs.ErrInvalidArgument.WithMessage("homomorphism input cannot be nil")
 		}
+		if s.Arity().Uint64() != uint64(len(generators)) {
+			return *new(G), proofs.ErrInvalidArgument.WithMessage("homomorphism input has %d components, expected %d", s.Arity().Uint64(), len(generators))
+		}
 		return generatorsVector.ScalarDiagonal(s).CoDiagonal(), nil
 	}
 
